@@ -134,6 +134,8 @@ public:
   inline sandbox_callback& operator=(sandbox_callback&& other)
   {
     if (this != &other) {
+      // release the callback currently owned (if any)
+      unregister();
       move_obj(std::forward<sandbox_callback>(other));
     }
     return *this;
